@@ -203,6 +203,27 @@ func (s *Store) Delete(key string, actor string) *Version {
 	return s.write(key, nil, true, actor, "delete", cur, 0, now)
 }
 
+// DeleteRev is Delete with the KV client's LastRevision option: it is applied only if rev is the sequence of
+// the key's latest stored message (the same rule as Update).
+func (s *Store) DeleteRev(key string, rev uint64, actor string) (*Version, error) {
+	s.mu.Lock()
+	defer s.mu.Unlock()
+	now := s.Now()
+	cur := s.latest[key]
+	if !s.stored(cur, now) {
+		cur = nil
+	}
+	var last uint64
+	if cur != nil {
+		last = cur.Rev
+	}
+	// (revision 0 means "no expectation" to the client: the delete is then unconditional)
+	if rev != 0 && rev != last {
+		return nil, ConflictError(last)
+	}
+	return s.write(key, nil, true, actor, "delete", cur, rev, now), nil
+}
+
 // ---- watchers ------------------------------------------------------------------
 
 type Watcher struct {
